@@ -247,6 +247,12 @@ class C13(Property):
                 return np.asarray(d.interface_distance(t) if axisym else d.interface_distance(t, p), float)
 
             rr = dist_fn(th, ph)
+            # the documented series of real spherical harmonics, evaluated by an independent textbook implementation (oracles.py)
+            if axisym:
+                ser = O.series_axisym(R0, amps, th)
+            else:
+                ser = O.series_3d(R0, amps, th, ph)
+            ctx.require(bool(np.all(np.abs(rr - ser) <= 1e-11 * R0 * (1 + float(np.abs(amps).sum())))), f"{'axisym' if axisym else '3d'}:series-harmonics", f"interface_distance differs from R0 (1 + sum a Y_lm) by {np.abs(rr - ser).max()}")
             if axisym:
                 ctx.require(bool(np.all(np.abs(rr - series_axisym(R0, amps, th)) <= tol_len)), "axisym:series", f"interface_distance differs from the documented series by {np.abs(rr - series_axisym(R0, amps, th)).max()}")
                 # the same shape expressed with the general 3-D class (m = 0 modes only)
